@@ -27,6 +27,9 @@ var units = []unit{
 	{"RelMini", []string{"mini/append.go", "mini/unroll.go"}, []string{"NullO", "ConsO", "CarO", "AppendO", "MemberO", "MapO"}, nil},
 	{"RelPeano", []string{"example/peano/peano.go"}, []string{"Succ", "Natplus", "Leq", "Half"}, []string{"RelMini"}},
 	{"RelConcato", []string{"gomini/concato/concato.go"}, []string{"PrependO", "ConcatO"}, nil},
+	{"RelRegex", []string{"gomini/regex/nullo.go", "gomini/regex/derivo.go", "gomini/regex/sderivo.go", "gomini/regex/simplo.go", "gomini/regex/matcho.go"},
+		[]string{"IsEmptySet", "IsEmptyStr", "IsChar", "IsOr", "IsConcat", "IsStar", "IsNotEmpty", "IsNotEmptySet", "SimpleOrO", "SimpleConcatO",
+			"DeriveCharO", "NullO", "IsNullO", "DerivO", "SDerivO", "SDerivOs", "MatchO", "IsMatchO"}, nil},
 }
 
 type rel struct {
@@ -73,33 +76,67 @@ type scope struct {
 	levels map[string]int      // term variable -> de Bruijn level
 	lets   map[string]string   // local term bindings, already translated at their definition depth... stored as closures
 	letsFn map[string]func(depth int) string
+	goalFn map[string]func(depth int) string // local goal bindings (r := EqualO(...))
+	runes  map[string]int                    // local rune constants (a := rune('a'))
 	depth  int
 }
 
-func (s *scope) push(name string) *scope {
-	n := &scope{levels: map[string]int{}, letsFn: map[string]func(int) string{}, depth: s.depth + 1}
+func (s *scope) clone(depth int) *scope {
+	n := &scope{levels: map[string]int{}, letsFn: map[string]func(int) string{}, goalFn: map[string]func(int) string{}, runes: map[string]int{}, depth: depth}
 	for k, v := range s.levels {
 		n.levels[k] = v
 	}
 	for k, v := range s.letsFn {
 		n.letsFn[k] = v
 	}
+	for k, v := range s.goalFn {
+		n.goalFn[k] = v
+	}
+	for k, v := range s.runes {
+		n.runes[k] = v
+	}
+	return n
+}
+
+func (s *scope) push(name string) *scope {
+	n := s.clone(s.depth + 1)
 	n.levels[name] = s.depth
 	delete(n.letsFn, name)
+	delete(n.goalFn, name)
+	delete(n.runes, name)
 	return n
 }
 
 func (s *scope) withLet(name string, f func(int) string) *scope {
-	n := &scope{levels: map[string]int{}, letsFn: map[string]func(int) string{}, depth: s.depth}
-	for k, v := range s.levels {
-		n.levels[k] = v
-	}
-	for k, v := range s.letsFn {
-		n.letsFn[k] = v
-	}
+	n := s.clone(s.depth)
 	n.letsFn[name] = f
 	delete(n.levels, name)
 	return n
+}
+
+func newScope(depth int) *scope {
+	return &scope{levels: map[string]int{}, letsFn: map[string]func(int) string{}, goalFn: map[string]func(int) string{}, runes: map[string]int{}, depth: depth}
+}
+
+func runeLit(e ast.Expr) (int, bool) {
+	if lit, ok := e.(*ast.BasicLit); ok && lit.Kind == token.CHAR {
+		v, _, _, err := strconv.UnquoteChar(lit.Value[1:len(lit.Value)-1], '\'')
+		if err == nil {
+			return int(v), true
+		}
+	}
+	if call, ok := e.(*ast.CallExpr); ok && calleeName(call.Fun) == "rune" && len(call.Args) == 1 {
+		return runeLit(call.Args[0])
+	}
+	return 0, false
+}
+
+func con(name string, args ...string) string {
+	t := "PNil"
+	for i := len(args) - 1; i >= 0; i-- {
+		t = "(PPair " + args[i] + " " + t + ")"
+	}
+	return "(PPair (PAtom (ASym " + strNum(name) + ")) " + t + ")"
 }
 
 func strNum(s string) string {
@@ -126,7 +163,7 @@ func (c *ctx) term(e ast.Expr, s *scope) string {
 			return fmt.Sprintf("(PB %d)", s.depth-1-lv)
 		}
 		if init, ok := c.consts[t.Name]; ok {
-			return c.term(init, &scope{levels: map[string]int{}, letsFn: map[string]func(int) string{}, depth: 0})
+			return c.term(init, newScope(0))
 		}
 		fail(c.fset, e, "unknown term identifier %s", t.Name)
 	case *ast.CallExpr:
@@ -143,6 +180,22 @@ func (c *ctx) term(e ast.Expr, s *scope) string {
 				v, _ := strconv.Unquote(lit.Value)
 				return "(PAtom (ASym " + strNum(v) + "))"
 			}
+		case "EmptySet":
+			return con("EmptySet")
+		case "EmptyStr":
+			return con("EmptyStr")
+		case "Char":
+			if v, ok := runeLit(t.Args[0]); ok {
+				return con("Char", fmt.Sprintf("(PAtom (AInt (%d)%%Z))", v))
+			}
+		case "CharPtr":
+			return con("Char", c.term(t.Args[0], s))
+		case "Or":
+			return con("Or", c.term(t.Args[0], s), c.term(t.Args[1], s))
+		case "Concat":
+			return con("Concat", c.term(t.Args[0], s), c.term(t.Args[1], s))
+		case "Star":
+			return con("Star", c.term(t.Args[0], s))
 		case "Makenat":
 			if lit, ok := t.Args[0].(*ast.BasicLit); ok && lit.Kind == token.INT {
 				n, _ := strconv.Atoi(lit.Value)
@@ -160,6 +213,12 @@ func (c *ctx) term(e ast.Expr, s *scope) string {
 		fail(c.fset, e, "unsupported term constructor %s", name)
 	case *ast.UnaryExpr:
 		if t.Op == token.AND {
+			if id, ok := t.X.(*ast.Ident); ok {
+				if v, ok := s.runes[id.Name]; ok {
+					// pointer to a local rune constant: a scalar pointer, compared by content
+					return fmt.Sprintf("(PAtom (AInt (%d)%%Z))", v)
+				}
+			}
 			if cl, ok := t.X.(*ast.CompositeLit); ok && len(cl.Elts) == 2 {
 				// &Node{head, tail}: a two-field constructor, encoded as a pair
 				return "(PPair " + c.term(cl.Elts[0], s) + " " + c.term(cl.Elts[1], s) + ")"
@@ -201,6 +260,11 @@ func (c *ctx) goal(e ast.Expr, s *scope) string {
 	case *ast.ParenExpr:
 		return c.goal(g.X, s)
 	case *ast.SelectorExpr, *ast.Ident:
+		if id, ok := e.(*ast.Ident); ok {
+			if f, ok := s.goalFn[id.Name]; ok {
+				return f(s.depth)
+			}
+		}
 		switch calleeName(e) {
 		case "SuccessO":
 			return "GSucc"
@@ -231,8 +295,7 @@ func (c *ctx) goal(e ast.Expr, s *scope) string {
 			def := sc
 			// the let-bound term is re-translated at each use depth (indices shift under binders)
 			sc = sc.withLet(name, func(depth int) string {
-				d := &scope{levels: def.levels, letsFn: def.letsFn, depth: depth}
-				return c.term(rhs, d)
+				return c.term(rhs, def.clone(depth))
 			})
 		}
 	case *ast.CallExpr:
@@ -431,16 +494,31 @@ func main() {
 				}
 			}
 			c.cur = r
-			if len(r.decl.Body.List) != 1 {
-				fail(fset, r.decl, "relation %s: body must be a single return", r.name)
-			}
-			ret, ok := r.decl.Body.List[0].(*ast.ReturnStmt)
-			if !ok || len(ret.Results) != 1 {
-				fail(fset, r.decl, "relation %s: body must be a single return", r.name)
-			}
-			s := &scope{levels: map[string]int{}, letsFn: map[string]func(int) string{}, depth: len(r.termPars)}
+			s := newScope(len(r.termPars))
 			for i, p := range r.termPars {
 				s.levels[p] = i
+			}
+			n := len(r.decl.Body.List)
+			for _, st := range r.decl.Body.List[:n-1] {
+				as, ok := st.(*ast.AssignStmt)
+				if !ok || as.Tok != token.DEFINE || len(as.Lhs) != 1 || len(as.Rhs) != 1 {
+					fail(fset, st, "relation %s: only `x := expr` may precede the return", r.name)
+				}
+				name := as.Lhs[0].(*ast.Ident).Name
+				rhs := as.Rhs[0]
+				if v, ok := runeLit(rhs); ok {
+					s = s.clone(s.depth)
+					s.runes[name] = v
+					continue
+				}
+				// a local goal binding, re-translated at each use depth
+				def := s
+				s = s.clone(s.depth)
+				s.goalFn[name] = func(depth int) string { return c.goal(rhs, def.clone(depth)) }
+			}
+			ret, ok := r.decl.Body.List[n-1].(*ast.ReturnStmt)
+			if !ok || len(ret.Results) != 1 {
+				fail(fset, r.decl, "relation %s: body must end in a single return", r.name)
 			}
 			body := c.goal(ret.Results[0], s)
 			fpars := ""
